@@ -41,7 +41,10 @@ class _AbstractGenericManager:
             return NO_VALUES
 
     def get_type_hint(self):
-        return '[%s]' % ', '.join(t.get_type_hint(add_class_info=False) for t in self.to_tuple())
+        # A generic that cannot be inferred (e.g. of `[]`) has no type hint.
+        return '[%s]' % ', '.join(
+            t.get_type_hint(add_class_info=False) or 'Any' for t in self.to_tuple()
+        )
 
 
 class LazyGenericManager(_AbstractGenericManager):
